@@ -1409,7 +1409,12 @@ impl Relation {
                     vec![SyntaxNode::new_root_mut(builder.finish()).into()],
                 );
             } else {
-                let name_node = self.0.children_with_tokens().find(|n| n.kind() == IDENT);
+                // The version follows the name and, if there is one, the architecture qualifier
+                let name_node = self
+                    .0
+                    .children_with_tokens()
+                    .filter(|n| n.kind() == IDENT || n.kind() == ARCHQUAL)
+                    .last();
                 let idx = if let Some(name_node) = name_node {
                     name_node.index() + 1
                 } else {
